@@ -186,7 +186,7 @@ def run(ctx):
         run_case(ctx, chi, m, np.array(sig), np.array(yb), np.array(ob), S, 'corpus')
     for i in range(n_cases):
         rng = ctx.sub_rng(i)
-        run_case(ctx, chi, *gen_case(rng, KINDS))
+        ctx.guard(run_case, ctx, chi, *gen_case(rng, KINDS))
     normalisation(ctx, chi, ctx.sub_rng(10 ** 6), 8 if ctx.tier == 'quick' else 80)
 
 
